@@ -205,6 +205,64 @@ theorem typed_lookup_reads_document (T : Table) (kv : List (Str × J))
 theorem live_typed_table_is_effective_document :
     tableMatches Gen.table Gen.effectiveIban = true := by decide +kernel
 
+/-! ### Lookups follow the concatenation of the bank files
+
+  The bank list is the concatenation of the files in name order; the lookup index lists, for a pair,
+  the entries of that pair in list order.  Hence for an additional (later) file: the entries it lists
+  for a pair come AFTER those of the earlier files (so the first-entry rule of `BBAN.bank` keeps
+  reading the earlier file when it lists the pair), and a pair the additional file does not list is
+  looked up exactly as before. -/
+
+theorem byBankCode_append (R1 R2 : Registry) (cc code : Str) :
+    (R1 ++ R2).byBankCode cc code =
+      match R1.byBankCode cc code, R2.byBankCode cc code with
+      | some a, some b => some (a ++ b)
+      | some a, none => some a
+      | none, some b => some b
+      | none, none => none := by
+  unfold Registry.byBankCode
+  by_cases hk : (cc = [] || code = []) = true
+  · simp [hk]
+  · simp only [hk, Bool.false_eq_true, ↓reduceIte, List.filter_append]
+    cases h1 : R1.filter (fun e => e.countryCode == cc && e.bankCode == code) <;>
+      cases h2 : R2.filter (fun e => e.countryCode == cc && e.bankCode == code) <;> simp
+
+/-- An additional file changes nothing for the pairs it does not list. -/
+theorem byBankCode_append_unlisted (R1 R2 : Registry) (cc code : Str)
+    (h : ∀ e ∈ R2, ¬ (e.countryCode = cc ∧ e.bankCode = code)) :
+    (R1 ++ R2).byBankCode cc code = R1.byBankCode cc code := by
+  rw [byBankCode_append]
+  have h2 : R2.byBankCode cc code = none := by
+    unfold Registry.byBankCode
+    split
+    · rfl
+    · have : R2.filter (fun e => e.countryCode == cc && e.bankCode == code) = [] := by
+        rw [List.filter_eq_nil_iff]
+        intro e he
+        simpa using h e he
+      rw [this]
+  rw [h2]
+  cases R1.byBankCode cc code <;> rfl
+
+/-- The first entry of a pair comes from the earliest file that lists the pair. -/
+theorem first_entry_from_earlier_file (R1 R2 : Registry) (cc code : Str) (a : List BankEntry)
+    (h : R1.byBankCode cc code = some a) :
+    ((R1 ++ R2).byBankCode cc code).map List.head? = some a.head? := by
+  have hne : a ≠ [] := by
+    unfold Registry.byBankCode at h
+    split at h
+    · cases h
+    · split at h
+      · cases h
+      · rename_i hne'; injection h with h; subst h; simpa using hne'
+  rw [byBankCode_append, h]
+  cases R2.byBankCode cc code with
+  | none => rfl
+  | some b =>
+    cases a with
+    | nil => exact absurd rfl hne
+    | cons x t => rfl
+
 /-! Non-vacuity -/
 example : untouched (.obj [([97], .obj [([98], .num 1)])]) [[97], [99]] = true := by decide
 example : (getPath (J.merge (.obj [([97], .obj [([98], .num 1), ([99], .num 5)])])
